@@ -394,4 +394,724 @@ theorem preOrderNodes_eq (F h : Nat) (hodd : F % 2 = 1) (hh : h ≤ 63)
   rw [e, pre_run F hodd h h (Nat.le_refl _) hh 0 hroot, up_root F h hh hF,
     run_stop (preStep_done F _), List.append_nil]
 
+/-! ## part 3: the shifted tree of a blob -/
+
+theorem nextPow2Aux_spec (fuel i x : Nat) (h : x ≤ 2 ^ (i + fuel)) :
+    ∃ j, i ≤ j ∧ nextPow2Aux fuel (2 ^ i) x = 2 ^ j ∧ x ≤ 2 ^ j ∧ (j = i ∨ 2 ^ (j - 1) < x) := by
+  induction fuel generalizing i with
+  | zero => exact ⟨i, Nat.le_refl _, rfl, h, Or.inl rfl⟩
+  | succ f ih =>
+    unfold nextPow2Aux
+    by_cases hx : x ≤ 2 ^ i
+    · rw [if_pos hx]; exact ⟨i, Nat.le_refl _, rfl, hx, Or.inl rfl⟩
+    · rw [if_neg hx, ← Nat.pow_succ']
+      obtain ⟨j, hj, e, hle, hmin⟩ :=
+        ih (i + 1) (by rw [show i + 1 + f = i + (f + 1) by omega]; exact h)
+      refine ⟨j, by omega, e, hle, Or.inr ?_⟩
+      rcases hmin with rfl | hmin
+      · simp only [Nat.add_sub_cancel]; omega
+      · exact hmin
+
+/-- `next_power_of_two`: a power of two `≥ x`, minimal -/
+theorem nextPow2_spec {x : Nat} (h : x ≤ 2 ^ 63) :
+    ∃ j, j ≤ 63 ∧ nextPow2 x = 2 ^ j ∧ x ≤ 2 ^ j ∧ (j = 0 ∨ 2 ^ (j - 1) < x) := by
+  have h64 : x ≤ 2 ^ (0 + 64) := by omega
+  obtain ⟨j, _, e, hle, hmin⟩ := nextPow2Aux_spec 64 0 x h64
+  refine ⟨j, ?_, e, hle, hmin⟩
+  rcases hmin with rfl | hmin
+  · omega
+  · have : 2 ^ (j - 1) < 2 ^ 63 := Nat.lt_of_lt_of_le hmin h
+    have := (Nat.pow_lt_pow_iff_right (a := 2) (by decide)).1 this
+    omega
+
+/-- the shifted root is node `(0, h)`, it exists, and the whole dense tree lies below it -/
+theorem shifted_root (size bs : Nat) (hs : size ≤ 2 ^ 63) :
+    ∃ h, h ≤ 63 ∧ (Tree.shifted ⟨size, bs⟩).1 = nodeOf 0 h ∧
+      nodeOf 0 h < (Tree.shifted ⟨size, bs⟩).2 ∧ (Tree.shifted ⟨size, bs⟩).2 < 2 ^ (h + 1) := by
+  have hdiv := Nat.div_le_self size (2 ^ (10 + bs))
+  unfold Tree.shifted
+  simp only
+  generalize hn :
+    divCeil2 (max (size / 2 ^ (10 + bs) + if size % 2 ^ (10 + bs) ≠ 0 then 1 else 0) 1) = n
+  have hn1 : 1 ≤ n ∧ n ≤ 2 ^ 63 := by
+    rw [← hn]; unfold divCeil2
+    split <;> omega
+  obtain ⟨j, hj, e, hle, hmin⟩ := nextPow2_spec hn1.2
+  refine ⟨j, hj, by rw [e, nodeOf_zero_left], ?_, ?_⟩
+  · rw [nodeOf_zero_left]
+    have hp := two_pow_pos' j
+    rcases hmin with rfl | hmin
+    · simp; omega
+    · cases j with
+      | zero => simp at hmin hle; omega
+      | succ i =>
+        simp only [Nat.add_sub_cancel] at hmin
+        rw [Nat.pow_succ] at *
+        omega
+  · rw [Nat.pow_succ]; omega
+
+/-- level of the shifted root -/
+def rootLevel (t : Tree) : Nat := Node.level t.shifted.1
+
+theorem rootLevel_spec (size bs : Nat) (hs : size ≤ 2 ^ 63) :
+    rootLevel ⟨size, bs⟩ ≤ 63 ∧
+    (Tree.shifted ⟨size, bs⟩).1 = nodeOf 0 (rootLevel ⟨size, bs⟩) ∧
+    nodeOf 0 (rootLevel ⟨size, bs⟩) < (Tree.shifted ⟨size, bs⟩).2 ∧
+    (Tree.shifted ⟨size, bs⟩).2 < 2 ^ (rootLevel ⟨size, bs⟩ + 1) := by
+  obtain ⟨h, hh, e, hlt, hF⟩ := shifted_root size bs hs
+  have : rootLevel ⟨size, bs⟩ = h := by
+    unfold rootLevel; rw [e, C18.level_nodeOf (by omega)]
+  rw [this]
+  exact ⟨hh, e, hlt, hF⟩
+
+/-- `PostOrderNodeIter` over the shifted tree of a blob = the post-order recursion -/
+theorem postOrderNodes_shifted (size bs : Nat) (hs : size ≤ 2 ^ 63) :
+    postOrderNodes (Tree.shifted ⟨size, bs⟩).1 (Tree.shifted ⟨size, bs⟩).2
+      = postD (Tree.shifted ⟨size, bs⟩).2 (rootLevel ⟨size, bs⟩) 0 := by
+  obtain ⟨hh, e, hlt, hF⟩ := rootLevel_spec size bs hs
+  rw [e]
+  exact postOrderNodes_eq _ _ (shifted_props size bs).2.2 hh hlt hF
+
+/-- `PreOrderNodeIter` over the shifted tree of a blob = the pre-order recursion -/
+theorem preOrderNodes_shifted (size bs : Nat) (hs : size ≤ 2 ^ 63) :
+    preOrderNodes (Tree.shifted ⟨size, bs⟩).1 (Tree.shifted ⟨size, bs⟩).2
+      = preD (Tree.shifted ⟨size, bs⟩).2 (rootLevel ⟨size, bs⟩) 0 := by
+  obtain ⟨hh, e, hlt, hF⟩ := rootLevel_spec size bs hs
+  rw [e]
+  exact preOrderNodes_eq _ _ (shifted_props size bs).2.2 hh hlt hF
+
+/-! ### dense lists for different bounds and heights -/
+
+theorem preD_zero (L k : Nat) : preD 0 L k = [] := by
+  induction L generalizing k with
+  | zero => simp [preD]
+  | succ L ih => simp [preD, ih]
+
+theorem postD_zero (L k : Nat) : postD 0 L k = [] := by
+  induction L generalizing k with
+  | zero => simp [postD]
+  | succ L ih => simp [postD, ih]
+
+theorem preD_heights {N a b : Nat} (ha : N < 2 ^ (a + 1)) (hb : N < 2 ^ (b + 1)) :
+    preD N a 0 = preD N b 0 := by
+  have key : ∀ a j, N < 2 ^ (a + 1) → preD N (a + j) 0 = preD N a 0 := by
+    intro a j h
+    induction j with
+    | zero => rfl
+    | succ j ih =>
+      have hp : (2 : Nat) ^ (a + 1) ≤ 2 ^ (a + j + 1) :=
+        Nat.pow_le_pow_right (by decide) (by omega)
+      have : ¬ (nodeOf 0 (a + j + 1) < N) := by rw [nodeOf_zero_left]; omega
+      rw [← Nat.add_assoc]
+      simp only [preD, if_neg this]
+      exact ih
+  rcases Nat.le_total a b with h | h
+  · obtain ⟨j, rfl⟩ := Nat.exists_eq_add_of_le h
+    exact (key a j ha).symm
+  · obtain ⟨j, rfl⟩ := Nat.exists_eq_add_of_le h
+    exact key b j hb
+
+theorem postD_heights {N a b : Nat} (ha : N < 2 ^ (a + 1)) (hb : N < 2 ^ (b + 1)) :
+    postD N a 0 = postD N b 0 := by
+  have key : ∀ a j, N < 2 ^ (a + 1) → postD N (a + j) 0 = postD N a 0 := by
+    intro a j h
+    induction j with
+    | zero => rfl
+    | succ j ih =>
+      have hp : (2 : Nat) ^ (a + 1) ≤ 2 ^ (a + j + 1) :=
+        Nat.pow_le_pow_right (by decide) (by omega)
+      have : ¬ (nodeOf 0 (a + j + 1) < N) := by rw [nodeOf_zero_left]; omega
+      rw [← Nat.add_assoc]
+      simp only [postD, if_neg this]
+      exact ih
+  rcases Nat.le_total a b with h | h
+  · obtain ⟨j, rfl⟩ := Nat.exists_eq_add_of_le h
+    exact (key a j ha).symm
+  · obtain ⟨j, rfl⟩ := Nat.exists_eq_add_of_le h
+    exact key b j hb
+
+/-- members of the dense post-order list -/
+theorem mem_postD' (N L k x : Nat) (h : x ∈ postD N L k) :
+    ∃ k' L', x = nodeOf k' L' ∧ L' ≤ L ∧ x < N ∧ startOf k L ≤ x ∧
+      startOf k L ≤ startOf k' L' ∧ endOf k' L' ≤ endOf k L := by
+  induction L generalizing k with
+  | zero =>
+    by_cases h0 : nodeOf k 0 < N
+    · simp only [postD, if_pos h0, List.mem_singleton] at h
+      refine ⟨k, 0, h, Nat.le_refl _, by omega, ?_, Nat.le_refl _, Nat.le_refl _⟩
+      rw [h, nodeOf_zero, startOf_zero]; omega
+    · simp [postD, h0] at h
+  | succ L ih =>
+    have hp := two_pow_pos' (L + 1)
+    have e2 : (2 : Nat) ^ (L + 1 + 1) = 2 * 2 ^ (L + 1) := by rw [Nat.pow_succ]; omega
+    have hel : endOf (2 * k) L ≤ endOf k (L + 1) := by
+      rw [endOf_start, endOf_start, Offsets.startOf_left, e2]; omega
+    have her : endOf (2 * k + 1) L ≤ endOf k (L + 1) := by
+      rw [endOf_start, endOf_start, Offsets.startOf_right, e2]; omega
+    have hsl : startOf (2 * k) L = startOf k (L + 1) := Offsets.startOf_left k L
+    have hsr : startOf k (L + 1) ≤ startOf (2 * k + 1) L := by
+      rw [Offsets.startOf_right]; omega
+    by_cases h0 : nodeOf k (L + 1) < N
+    · simp only [postD, if_pos h0, List.mem_append, List.mem_singleton] at h
+      rcases h with (h | h) | h
+      · obtain ⟨k', L', h1, h2, h3, h4, h5, h6⟩ := ih _ h
+        exact ⟨k', L', h1, by omega, h3, by omega, by omega, by omega⟩
+      · obtain ⟨k', L', h1, h2, h3, h4, h5, h6⟩ := ih _ h
+        exact ⟨k', L', h1, by omega, h3, by omega, by omega, by omega⟩
+      · refine ⟨k, L + 1, h, Nat.le_refl _, by omega, ?_, Nat.le_refl _, Nat.le_refl _⟩
+        rw [h, nodeOf_start]; omega
+    · simp only [postD, if_neg h0] at h
+      obtain ⟨k', L', h1, h2, h3, h4, h5, h6⟩ := ih _ h
+      exact ⟨k', L', h1, by omega, h3, by omega, by omega, by omega⟩
+
+theorem mem_postD_lt (N L k x : Nat) (h : x ∈ postD N L k) : x < N := by
+  obtain ⟨_, _, _, _, h3, _⟩ := mem_postD' N L k x h
+  exact h3
+
+/-- lowering the bound filters the dense post-order list -/
+theorem postD_filter {N M : Nat} (hNM : N ≤ M) (L k : Nat) :
+    postD N L k = (postD M L k).filter (fun x => decide (x < N)) := by
+  induction L generalizing k with
+  | zero =>
+    by_cases h1 : nodeOf k 0 < N
+    · have h2 : nodeOf k 0 < M := by omega
+      simp [postD, h1, h2]
+    · by_cases h2 : nodeOf k 0 < M <;> simp [postD, h1, h2]
+  | succ L ih =>
+    by_cases h1 : nodeOf k (L + 1) < N
+    · have h2 : nodeOf k (L + 1) < M := by omega
+      simp only [postD, if_pos h1, if_pos h2, List.filter_append, ← ih]
+      simp [h1]
+    · by_cases h2 : nodeOf k (L + 1) < M
+      · simp only [postD, if_neg h1, if_pos h2, List.filter_append, ← ih]
+        have hr : postD N L (2 * k + 1) = [] := by
+          rw [ih, List.filter_eq_nil_iff]
+          intro x hx
+          obtain ⟨_, _, _, _, _, h4, _, _⟩ := mem_postD' _ _ _ _ hx
+          rw [Bits.startOf_right, midOf_eq, ← nodeOf_succ] at h4
+          simp only [decide_eq_true_eq]; omega
+        rw [hr]
+        simp [h1]
+      · simp only [postD, if_neg h1, if_neg h2, ← ih]
+
+/-- raising an even bound by one appends the new leaf to the dense pre-order list -/
+theorem preD_succ {N : Nat} (heven : N % 2 = 0) (L k : Nat) :
+    preD (N + 1) L k
+      = preD N L k ++ (if startOf k L ≤ N ∧ N < endOf k L then [N] else []) := by
+  induction L generalizing k with
+  | zero =>
+    simp only [preD, nodeOf_zero, startOf_zero, endOf_start, startOf_zero]
+    by_cases h1 : 2 * k < N
+    · have h2 : 2 * k < N + 1 := by omega
+      have h3 : ¬ (2 * k ≤ N ∧ N < 2 * k + 2 ^ (0 + 1)) := by simp; omega
+      simp [h1, h2, h3]
+    · by_cases h2 : 2 * k < N + 1
+      · have h3 : 2 * k ≤ N ∧ N < 2 * k + 2 ^ (0 + 1) := by simp; omega
+        simp only [if_neg h1, if_pos h2, if_pos h3, List.nil_append, List.cons.injEq, and_true]
+        omega
+      · have h3 : ¬ (2 * k ≤ N ∧ N < 2 * k + 2 ^ (0 + 1)) := by simp; omega
+        simp [h1, h2, h3]
+  | succ L ih =>
+    have hp := two_pow_pos' (L + 1)
+    have e2 : (2 : Nat) ^ (L + 1 + 1) = 2 * 2 ^ (L + 1) := by rw [Nat.pow_succ]; omega
+    have hodd := nodeOf_succ_odd k L
+    have hx := nodeOf_start k (L + 1)
+    have hsl : startOf (2 * k) L = startOf k (L + 1) := Offsets.startOf_left k L
+    have hsr := Offsets.startOf_right k L
+    have hel : endOf (2 * k) L = startOf k (L + 1) + 2 ^ (L + 1) := by rw [endOf_start, hsl]
+    have her : endOf (2 * k + 1) L = startOf k (L + 1) + 2 * 2 ^ (L + 1) := by
+      rw [endOf_start, hsr]; omega
+    have he : endOf k (L + 1) = startOf k (L + 1) + 2 * 2 ^ (L + 1) := by rw [endOf_start, e2]
+    by_cases h1 : nodeOf k (L + 1) < N
+    · have h2 : nodeOf k (L + 1) < N + 1 := by omega
+      have hl : ¬ (startOf (2 * k) L ≤ N ∧ N < endOf (2 * k) L) := by rw [hel]; omega
+      simp only [preD, if_pos h1, if_pos h2, ih, if_neg hl, List.append_nil, List.cons_append,
+        List.append_assoc]
+      congr 3
+      by_cases hr : startOf (2 * k + 1) L ≤ N ∧ N < endOf (2 * k + 1) L
+      · rw [if_pos hr, if_pos (by rw [he]; rw [her] at hr; omega)]
+      · rw [if_neg hr, if_neg (by rw [he]; rw [her, hsr] at hr; omega)]
+    · have h2 : ¬ (nodeOf k (L + 1) < N + 1) := by omega
+      simp only [preD, if_neg h1, if_neg h2, ih]
+      congr 1
+      by_cases hr : startOf (2 * k) L ≤ N ∧ N < endOf (2 * k) L
+      · rw [if_pos hr, if_pos (by rw [he]; rw [hel, hsl] at hr; omega)]
+      · rw [if_neg hr, if_neg (by rw [he]; rw [hel, hsl] at hr; omega)]
+
+/-! ### the persisted lists in dense form -/
+
+theorem persistedPre_eq_preD (size bs h : Nat) (hs : size ≤ 2 ^ 63)
+    (hh : Tree.blocks ⟨size, bs⟩ - 1 < 2 ^ (h + 1)) :
+    persistedPre size bs = (preD (Tree.blocks ⟨size, bs⟩ - 1) h 0).map (up bs) := by
+  have hH := log2ceil_spec 64 (nChunks size) (nChunks_le size hs)
+  unfold persistedPre
+  generalize log2ceil 64 (nChunks size) = H at *
+  by_cases hHb : H < bs
+  · rw [preNodes_lt _ _ _ _ hHb, blocks_eq_one_of_nChunks_le hH hHb, preD_zero]
+    rfl
+  · obtain ⟨L, rfl⟩ : ∃ L, H = L + bs := ⟨H - bs, by omega⟩
+    have hB := blocks_le_of_nChunks_le hH
+    have hBp := blocks_pos size bs
+    have hp := two_pow_pos' L
+    rw [preNodes_shift, preD_heights (a := L) (b := h) (by rw [Nat.pow_succ]; omega) hh]
+
+theorem persistedPost_eq_postD (size bs h : Nat) (hs : size ≤ 2 ^ 63)
+    (hh : Tree.blocks ⟨size, bs⟩ - 1 < 2 ^ (h + 1)) :
+    persistedPost size bs = (postD (Tree.blocks ⟨size, bs⟩ - 1) h 0).map (up bs) := by
+  have hH := log2ceil_spec 64 (nChunks size) (nChunks_le size hs)
+  unfold persistedPost
+  generalize log2ceil 64 (nChunks size) = H at *
+  by_cases hHb : H < bs
+  · rw [postNodes_lt _ _ _ _ hHb, blocks_eq_one_of_nChunks_le hH hHb, postD_zero]
+    rfl
+  · obtain ⟨L, rfl⟩ : ∃ L, H = L + bs := ⟨H - bs, by omega⟩
+    have hB := blocks_le_of_nChunks_le hH
+    have hBp := blocks_pos size bs
+    have hp := two_pow_pos' L
+    rw [postNodes_shift, postD_heights (a := L) (b := h) (by rw [Nat.pow_succ]; omega) hh]
+
+/-- the half-filled last leaf, present iff the number of blocks is odd -/
+def halfLeaf (t : Tree) : List Nat :=
+  if t.blocks % 2 = 1 then [Node.subBs (t.blocks - 1) t.bs] else []
+
+/-- on the ids of the shifted tree `subtract_block_size` is `up` -/
+theorem subBs_up_of_lt (size bs : Nat) (hs : size ≤ 2 ^ 63) (hbs : bs ≤ 10) {x : Nat}
+    (hx : x < (Tree.shifted ⟨size, bs⟩).2) : Node.subBs x bs = up bs x := by
+  obtain ⟨_, hFN, _⟩ := shifted_props size bs
+  have hm := blocks_mul_le size bs hs hbs
+  apply subBs_eq_up
+  have : (x + 1) * 2 ^ bs ≤ (Tree.blocks ⟨size, bs⟩ - 1 + 1) * 2 ^ bs :=
+    Nat.mul_le_mul_right _ (by omega)
+  omega
+
+theorem up_inj {bs a b : Nat} (h : up bs a = up bs b) : a = b := by
+  have h1 := up_succ bs a
+  have h2 := up_succ bs b
+  rw [h] at h1
+  have := Nat.eq_of_mul_eq_mul_right (two_pow_pos' bs) (h1.symm.trans h2)
+  omega
+
+/-- `BaoTree::pre_order_nodes_iter` = the persisted nodes in pre-order, then the half leaf -/
+theorem preIter_eq (size bs : Nat) (hs : size ≤ 2 ^ 63) (hbs : bs ≤ 10) :
+    Tree.preOrderNodesIter ⟨size, bs⟩ = persistedPre size bs ++ halfLeaf ⟨size, bs⟩ := by
+  obtain ⟨hh, e, hlt, hF⟩ := rootLevel_spec size bs hs
+  obtain ⟨hNF, hFN, hodd⟩ := shifted_props size bs
+  have hBp := blocks_pos size bs
+  have hmap : (preD (Tree.shifted ⟨size, bs⟩).2 (rootLevel ⟨size, bs⟩) 0).map (Node.subBs · bs)
+      = (preD (Tree.shifted ⟨size, bs⟩).2 (rootLevel ⟨size, bs⟩) 0).map (up bs) := by
+    apply List.map_congr_left
+    intro x hx
+    exact subBs_up_of_lt size bs hs hbs (mem_preD_lt _ _ _ _ hx)
+  unfold Tree.preOrderNodesIter
+  simp only
+  rw [preOrderNodes_shifted size bs hs, hmap,
+    persistedPre_eq_preD size bs (rootLevel ⟨size, bs⟩) hs (by omega)]
+  unfold halfLeaf
+  simp only
+  generalize hN : Tree.blocks ⟨size, bs⟩ - 1 = N at *
+  generalize (Tree.shifted ⟨size, bs⟩).2 = F at *
+  by_cases hev : N % 2 = 0
+  · have hFe : F = N + 1 := by omega
+    have hb : Tree.blocks ⟨size, bs⟩ % 2 = 1 := by omega
+    subst hFe
+    rw [preD_succ hev, if_pos hb, subBs_eq_up (by rw [← hN]; exact blocks_mul_le size bs hs hbs)]
+    have hr : startOf 0 (rootLevel ⟨size, bs⟩) ≤ N ∧ N < endOf 0 (rootLevel ⟨size, bs⟩) := by
+      simp only [startOf, endOf, Nat.zero_mul, Nat.zero_add, Nat.one_mul]; omega
+    rw [if_pos hr, List.map_append]
+    rfl
+  · have hFe : F = N := by omega
+    have hb : ¬ (Tree.blocks ⟨size, bs⟩ % 2 = 1) := by omega
+    subst hFe
+    rw [if_neg hb, List.append_nil]
+
+/-- `BaoTree::post_order_nodes_iter` without the half leaf = the persisted nodes in post-order -/
+theorem postIter_filter (size bs : Nat) (hs : size ≤ 2 ^ 63) (hbs : bs ≤ 10) :
+    (Tree.postOrderNodesIter ⟨size, bs⟩).filter (fun x => !(halfLeaf ⟨size, bs⟩).contains x)
+      = persistedPost size bs := by
+  obtain ⟨hh, e, hlt, hF⟩ := rootLevel_spec size bs hs
+  obtain ⟨hNF, hFN, hodd⟩ := shifted_props size bs
+  have hBp := blocks_pos size bs
+  have hmap : (postD (Tree.shifted ⟨size, bs⟩).2 (rootLevel ⟨size, bs⟩) 0).map (Node.subBs · bs)
+      = (postD (Tree.shifted ⟨size, bs⟩).2 (rootLevel ⟨size, bs⟩) 0).map (up bs) := by
+    apply List.map_congr_left
+    intro x hx
+    exact subBs_up_of_lt size bs hs hbs (mem_postD_lt _ _ _ _ hx)
+  unfold Tree.postOrderNodesIter
+  simp only
+  rw [postOrderNodes_shifted size bs hs, hmap,
+    persistedPost_eq_postD size bs (rootLevel ⟨size, bs⟩) hs (by omega),
+    postD_filter hNF (rootLevel ⟨size, bs⟩) 0, List.filter_map]
+  congr 1
+  apply List.filter_congr
+  intro x hx
+  have hxF := mem_postD_lt _ _ _ _ hx
+  unfold halfLeaf
+  simp only
+  by_cases hb : Tree.blocks ⟨size, bs⟩ % 2 = 1
+  · rw [if_pos hb, subBs_eq_up (blocks_mul_le size bs hs hbs)]
+    by_cases hxN : x = Tree.blocks ⟨size, bs⟩ - 1
+    · subst hxN; simp
+    · have hne : up bs x ≠ up bs (Tree.blocks ⟨size, bs⟩ - 1) := fun h => hxN (up_inj h)
+      have hlt : x < Tree.blocks ⟨size, bs⟩ - 1 := by omega
+      simp [hne, hlt]
+  · rw [if_neg hb]
+    have hlt : x < Tree.blocks ⟨size, bs⟩ - 1 := by omega
+    simp [hlt]
+
+/-! ## part 4: the post-order chunk plan -/
+
+/-- the leaf item of block (chunk group) `b` -/
+def leafItem (size bs b : Nat) (isRoot : Bool) : Chunk :=
+  .leaf (b * 2 ^ bs) (min (2 ^ bs * 1024) (size - b * 2 ^ bs * 1024)) isRoot []
+
+/-- facts about `(F, B) = (shifted.2, blocks)` used below -/
+structure Geo (size bs F : Nat) : Prop where
+  odd : F % 2 = 1
+  le : F ≤ Tree.blocks ⟨size, bs⟩
+  ge : Tree.blocks ⟨size, bs⟩ ≤ F + 1
+  fits : ∀ x, x < F → Node.subBs x bs = up bs x
+  hbs : bs ≤ 64
+
+theorem shifted_geo (size bs : Nat) (hs : size ≤ 2 ^ 63) (hbs : bs ≤ 10) :
+    Geo size bs (Tree.shifted ⟨size, bs⟩).2 := by
+  obtain ⟨h1, h2, h3⟩ := shifted_props size bs
+  have hb := blocks_pos size bs
+  exact ⟨h3, by omega, by omega, fun x hx => subBs_up_of_lt size bs hs hbs hx, by omega⟩
+
+/-- a shifted inner node yields its parent item -/
+theorem items_inner {size bs F : Nat} (g : Geo size bs F) (root : Nat) {sh : Nat}
+    (hodd : sh % 2 = 1) (hsh : sh < F) :
+    Tree.postChunksOfNode ⟨size, bs⟩ root sh = [.parent (up bs sh) (sh == root) true true []] := by
+  have : Node.isLeaf sh = false := by simp [Node.isLeaf, hodd]
+  simp only [Tree.postChunksOfNode, this, g.fits sh hsh]
+  rfl
+
+theorem chunkRange_up (bs k : Nat) (hbs : bs ≤ 64) :
+    Node.chunkRange (up bs (2 * k)) = (2 * (k * 2 ^ bs), 2 * (k * 2 ^ bs) + 2 * 2 ^ bs) ∧
+    Node.mid (up bs (2 * k)) = 2 * (k * 2 ^ bs) + 2 ^ bs := by
+  have e : up bs (2 * k) = nodeOf k bs := by
+    have := up_nodeOf bs k 0
+    rwa [nodeOf_zero, Nat.zero_add] at this
+  rw [e, C18.chunkRange_spec hbs, C18.mid_spec, startOf_eq, endOf_eq, midOf_eq]
+  exact ⟨rfl, rfl⟩
+
+/-- a shifted leaf with two blocks yields both leaves and the parent -/
+theorem items_full {size bs F : Nat} (g : Geo size bs F) (root : Nat) {k : Nat}
+    (h : 2 * k + 1 < Tree.blocks ⟨size, bs⟩) :
+    Tree.postChunksOfNode ⟨size, bs⟩ root (2 * k)
+      = [leafItem size bs (2 * k) false, leafItem size bs (2 * k + 1) false,
+         .parent (up bs (2 * k)) (2 * k == root) true true []] := by
+  have hsh : 2 * k < F := by have := g.ge; omega
+  have hl : Node.isLeaf (2 * k) = true := by simp [Node.isLeaf]
+  obtain ⟨hcr, hmid⟩ := chunkRange_up bs k g.hbs
+  have hb := (lt_blocks_iff size bs (2 * k + 1) (by omega)).mp h
+  rw [Nat.pow_add, ← Nat.mul_assoc, odd_mul] at hb
+  have hp := two_pow_pos' bs
+  simp only [Tree.postChunksOfNode, hl, g.fits _ hsh, Tree.leafByteRanges3, hcr, hmid, toBytes,
+    Tree.chunkGroupChunks, leafItem, Nat.mul_assoc 2 k, odd_mul]
+  generalize k * 2 ^ bs = q at *
+  generalize 2 ^ bs = p at *
+  have e10 : (2 : Nat) ^ 10 = 1024 := by decide
+  rw [e10] at hb
+  have hne : (min ((2 * q + p) * 1024) size == min ((2 * q + 2 * p) * 1024) size) = false := by
+    rw [beq_eq_false_iff_ne]; omega
+  simp only [hne, Bool.not_false, if_true, Bool.and_false]
+  refine List.cons_eq_cons.mpr ⟨?_, List.cons_eq_cons.mpr ⟨?_, rfl⟩⟩
+  · rw [Chunk.leaf.injEq]; refine ⟨rfl, ?_, rfl, rfl⟩; omega
+  · rw [Chunk.leaf.injEq]; refine ⟨rfl, ?_, rfl, rfl⟩; omega
+
+/-- the half leaf yields one leaf item -/
+theorem items_half {size bs F : Nat} (g : Geo size bs F) (root : Nat) {k : Nat}
+    (hsh : 2 * k < F) (h : Tree.blocks ⟨size, bs⟩ ≤ 2 * k + 1) :
+    Tree.postChunksOfNode ⟨size, bs⟩ root (2 * k) = [leafItem size bs (2 * k) (2 * k == root)] := by
+  have hl : Node.isLeaf (2 * k) = true := by simp [Node.isLeaf]
+  obtain ⟨hcr, hmid⟩ := chunkRange_up bs k g.hbs
+  have hb := mt (lt_blocks_iff size bs (2 * k + 1) (by omega)).mpr (by omega)
+  rw [Nat.pow_add, ← Nat.mul_assoc, odd_mul] at hb
+  have hp := two_pow_pos' bs
+  simp only [Tree.postChunksOfNode, hl, g.fits _ hsh, Tree.leafByteRanges3, hcr, hmid, toBytes,
+    Tree.chunkGroupChunks, leafItem, Nat.mul_assoc 2 k]
+  generalize k * 2 ^ bs = q at *
+  generalize 2 ^ bs = p at *
+  have e10 : (2 : Nat) ^ 10 = 1024 := by decide
+  rw [e10] at hb
+  have hne : (min ((2 * q + p) * 1024) size == min ((2 * q + 2 * p) * 1024) size) = true := by
+    rw [beq_iff_eq]; omega
+  simp only [hne, Bool.not_true, Bool.and_true]
+  refine List.cons_eq_cons.mpr ⟨?_, rfl⟩
+  rw [Chunk.leaf.injEq]; refine ⟨rfl, ?_, rfl, rfl⟩; omega
+
+/-! ### views of a plan -/
+
+/-- `(start chunk, size in bytes)` of the leaf items, in order -/
+def leavesOf (l : List Chunk) : List (Nat × Nat) :=
+  l.filterMap fun c => match c with
+    | .leaf s z _ _ => some (s, z)
+    | .parent .. => none
+
+/-- nodes of the parent items, in order -/
+def parentsOf (l : List Chunk) : List Nat :=
+  l.filterMap fun c => match c with
+    | .parent n _ _ _ _ => some n
+    | .leaf .. => none
+
+/-- the `is_root` flag of an item -/
+def rootFlag : Chunk → Bool
+  | .parent _ r _ _ _ => r
+  | .leaf _ _ r _ => r
+
+/-- the hash stack height: a leaf pushes, a parent pops two and pushes one -/
+def stackStep : Option Nat → Chunk → Option Nat
+  | some h, .leaf .. => some (h + 1)
+  | some h, .parent .. => if 2 ≤ h then some (h - 1) else none
+  | none, _ => none
+
+/-- stack height after running over a plan from height `h`; `none` = underflow -/
+def stackRun (h : Nat) (plan : List Chunk) : Option Nat := plan.foldl stackStep (some h)
+
+/-- `(start chunk, size)` of block `b` -/
+def leafInfo (size bs b : Nat) : Nat × Nat :=
+  (b * 2 ^ bs, min (2 ^ bs * 1024) (size - b * 2 ^ bs * 1024))
+
+theorem leavesOf_append (a b : List Chunk) : leavesOf (a ++ b) = leavesOf a ++ leavesOf b :=
+  List.filterMap_append
+
+theorem parentsOf_append (a b : List Chunk) : parentsOf (a ++ b) = parentsOf a ++ parentsOf b :=
+  List.filterMap_append
+
+theorem stackRun_append (h : Nat) (a b : List Chunk) :
+    stackRun h (a ++ b) = (stackRun h a).bind fun h' => stackRun h' b := by
+  unfold stackRun
+  rw [List.foldl_append]
+  cases List.foldl stackStep (some h) a with
+  | some h' => rfl
+  | none =>
+    simp only [Option.bind_none]
+    induction b with
+    | nil => rfl
+    | cons c b ih => exact ih
+
+/-- the plan of the dense subtree `(k, L)`: the items of its nodes in post-order -/
+def planD (size bs root F L k : Nat) : List Chunk :=
+  (postD F L k).flatMap (Tree.postChunksOfNode ⟨size, bs⟩ root)
+
+section plan
+variable {size bs F : Nat} (g : Geo size bs F) (root : Nat)
+include g
+
+omit g in
+theorem planD_zero_out {k : Nat} (h : ¬ (2 * k < F)) : planD size bs root F 0 k = [] := by
+  simp [planD, postD, nodeOf_zero, h]
+
+theorem planD_zero_full {k : Nat} (h : 2 * k + 1 < Tree.blocks ⟨size, bs⟩) :
+    planD size bs root F 0 k
+      = [leafItem size bs (2 * k) false, leafItem size bs (2 * k + 1) false,
+         .parent (up bs (2 * k)) (2 * k == root) true true []] := by
+  have hsh : 2 * k < F := by have := g.ge; omega
+  simp only [planD, postD, nodeOf_zero, if_pos hsh, List.flatMap_cons, List.flatMap_nil,
+    List.append_nil, items_full g root h]
+
+theorem planD_zero_half {k : Nat} (hsh : 2 * k < F) (h : Tree.blocks ⟨size, bs⟩ ≤ 2 * k + 1) :
+    planD size bs root F 0 k = [leafItem size bs (2 * k) (2 * k == root)] := by
+  simp only [planD, postD, nodeOf_zero, if_pos hsh, List.flatMap_cons, List.flatMap_nil,
+    List.append_nil, items_half g root hsh h]
+
+theorem planD_succ_pos {L k : Nat} (h : nodeOf k (L + 1) < F) :
+    planD size bs root F (L + 1) k
+      = planD size bs root F L (2 * k) ++ planD size bs root F L (2 * k + 1) ++
+        [.parent (up bs (nodeOf k (L + 1))) (nodeOf k (L + 1) == root) true true []] := by
+  simp only [planD, postD, if_pos h, List.flatMap_append, List.flatMap_cons, List.flatMap_nil,
+    List.append_nil, items_inner g root (nodeOf_succ_odd k L) h]
+
+omit g in
+theorem planD_succ_neg {L k : Nat} (h : ¬ (nodeOf k (L + 1) < F)) :
+    planD size bs root F (L + 1) k = planD size bs root F L (2 * k) := by
+  simp only [planD, postD, if_neg h]
+
+/-- the leaves of the plan of a subtree are its blocks, in order -/
+theorem leaves_planD (L k : Nat) :
+    leavesOf (planD size bs root F L k)
+      = (List.range' (startOf k L) (min (endOf k L) (Tree.blocks ⟨size, bs⟩) - startOf k L)).map
+          (leafInfo size bs) := by
+  have hodd := g.odd; have hle := g.le; have hge := g.ge
+  induction L generalizing k with
+  | zero =>
+    rw [endOf_start, startOf_zero]
+    by_cases hsh : 2 * k < F
+    · by_cases h : 2 * k + 1 < Tree.blocks ⟨size, bs⟩
+      · rw [planD_zero_full g root h,
+          show min (2 * k + 2 ^ (0 + 1)) (Tree.blocks ⟨size, bs⟩) - 2 * k = 2 by
+            simp only [Nat.zero_add, Nat.pow_one]; omega]
+        rfl
+      · rw [planD_zero_half g root hsh (by omega),
+          show min (2 * k + 2 ^ (0 + 1)) (Tree.blocks ⟨size, bs⟩) - 2 * k = 1 by
+            simp only [Nat.zero_add, Nat.pow_one]; omega]
+        rfl
+    · rw [planD_zero_out root hsh,
+        show min (2 * k + 2 ^ (0 + 1)) (Tree.blocks ⟨size, bs⟩) - 2 * k = 0 by
+          simp only [Nat.zero_add, Nat.pow_one]; omega]
+      rfl
+  | succ L ih =>
+    have hp := two_pow_pos' (L + 1)
+    have e2 : (2 : Nat) ^ (L + 1 + 1) = 2 * 2 ^ (L + 1) := by rw [Nat.pow_succ]; omega
+    have hxo := nodeOf_succ_odd k L
+    have hx := nodeOf_start k (L + 1)
+    have hsl : startOf (2 * k) L = startOf k (L + 1) := Offsets.startOf_left k L
+    have hsr := Offsets.startOf_right k L
+    have hel : endOf (2 * k) L = startOf k (L + 1) + 2 ^ (L + 1) := by rw [endOf_start, hsl]
+    have her : endOf (2 * k + 1) L = startOf k (L + 1) + 2 * 2 ^ (L + 1) := by
+      rw [endOf_start, hsr]; omega
+    have he : endOf k (L + 1) = startOf k (L + 1) + 2 * 2 ^ (L + 1) := by rw [endOf_start, e2]
+    by_cases h : nodeOf k (L + 1) < F
+    · rw [planD_succ_pos g root h, leavesOf_append, leavesOf_append, ih, ih, hsl, hsr, hel, her, he]
+      have e1 : min (startOf k (L + 1) + 2 ^ (L + 1)) (Tree.blocks ⟨size, bs⟩) - startOf k (L + 1)
+          = 2 ^ (L + 1) := by omega
+      have e3 : min (startOf k (L + 1) + 2 * 2 ^ (L + 1)) (Tree.blocks ⟨size, bs⟩)
+            - startOf k (L + 1)
+          = 2 ^ (L + 1) + (min (startOf k (L + 1) + 2 * 2 ^ (L + 1)) (Tree.blocks ⟨size, bs⟩)
+            - (startOf k (L + 1) + 2 ^ (L + 1))) := by omega
+      rw [e1, e3, ← List.range'_append_1, List.map_append]
+      simp [leavesOf]
+    · rw [planD_succ_neg root h, ih, hsl, hel, he]
+      congr 2
+      omega
+
+/-- the parent items of the plan of a subtree are its persisted nodes, in post-order -/
+theorem parents_planD (L k : Nat) :
+    parentsOf (planD size bs root F L k)
+      = (postD (Tree.blocks ⟨size, bs⟩ - 1) L k).map (up bs) := by
+  have hodd := g.odd; have hle := g.le; have hge := g.ge
+  induction L generalizing k with
+  | zero =>
+    by_cases hsh : 2 * k < F
+    · by_cases h : 2 * k + 1 < Tree.blocks ⟨size, bs⟩
+      · have : 2 * k < Tree.blocks ⟨size, bs⟩ - 1 := by omega
+        rw [planD_zero_full g root h]
+        simp [postD, nodeOf_zero, this, parentsOf, leafItem]
+      · have : ¬ (2 * k < Tree.blocks ⟨size, bs⟩ - 1) := by omega
+        rw [planD_zero_half g root hsh (by omega)]
+        simp [postD, nodeOf_zero, this, parentsOf, leafItem]
+    · have : ¬ (2 * k < Tree.blocks ⟨size, bs⟩ - 1) := by omega
+      rw [planD_zero_out root hsh]
+      simp [postD, nodeOf_zero, this, parentsOf]
+  | succ L ih =>
+    have hxo := nodeOf_succ_odd k L
+    by_cases h : nodeOf k (L + 1) < F
+    · have : nodeOf k (L + 1) < Tree.blocks ⟨size, bs⟩ - 1 := by omega
+      rw [planD_succ_pos g root h, parentsOf_append, parentsOf_append, ih, ih]
+      simp [postD, this, parentsOf]
+    · have : ¬ (nodeOf k (L + 1) < Tree.blocks ⟨size, bs⟩ - 1) := by omega
+      rw [planD_succ_neg root h, ih]
+      simp only [postD, if_neg this]
+
+/-- running the hash stack over the plan of a non-empty subtree pushes exactly one entry -/
+theorem stack_planD (L k : Nat) (hne : startOf k L < F) (s : Nat) :
+    stackRun s (planD size bs root F L k) = some (s + 1) := by
+  have hodd := g.odd; have hle := g.le; have hge := g.ge
+  induction L generalizing k s with
+  | zero =>
+    rw [startOf_zero] at hne
+    by_cases h : 2 * k + 1 < Tree.blocks ⟨size, bs⟩
+    · rw [planD_zero_full g root h]
+      simp [stackRun, stackStep, leafItem]
+    · rw [planD_zero_half g root hne (by omega)]
+      simp [stackRun, stackStep, leafItem]
+  | succ L ih =>
+    by_cases h : nodeOf k (L + 1) < F
+    · have hl : startOf (2 * k) L < F := by
+        rw [Offsets.startOf_left]
+        have := nodeOf_start k (L + 1); have := two_pow_pos' (L + 1); omega
+      rw [planD_succ_pos g root h, stackRun_append, stackRun_append, ih _ hl, Option.bind_some,
+        ih _ (right_nonempty hodd h).1, Option.bind_some]
+      simp [stackRun, stackStep]
+    · rw [planD_succ_neg root h]
+      exact ih _ (by rw [Offsets.startOf_left]; exact hne) s
+
+/-- items of nodes other than the root do not carry the root flag -/
+theorem flags_planD (L k : Nat) (hroot : ∀ x ∈ postD F L k, x ≠ root) :
+    ∀ c ∈ planD size bs root F L k, rootFlag c = false := by
+  have hle := g.le; have hge := g.ge
+  intro c hc
+  simp only [planD, List.mem_flatMap] at hc
+  obtain ⟨x, hx, hc⟩ := hc
+  have hxr : (x == root) = false := by rw [beq_eq_false_iff_ne]; exact hroot x hx
+  have hxF := mem_postD_lt _ _ _ _ hx
+  rcases Nat.mod_two_eq_zero_or_one x with hev | hod
+  · obtain ⟨k', rfl⟩ : ∃ k', x = 2 * k' := ⟨x / 2, by omega⟩
+    by_cases h : 2 * k' + 1 < Tree.blocks ⟨size, bs⟩
+    · rw [items_full g root h, hxr] at hc
+      simp only [List.mem_cons, List.not_mem_nil, or_false] at hc
+      rcases hc with rfl | rfl | rfl <;> rfl
+    · rw [items_half g root hxF (by omega), hxr] at hc
+      simp only [List.mem_cons, List.not_mem_nil, or_false] at hc
+      subst hc; rfl
+  · rw [items_inner g root hod hxF, hxr] at hc
+    simp only [List.mem_cons, List.not_mem_nil, or_false] at hc
+    subst hc; rfl
+
+/-- the whole plan: only its last item carries the root flag -/
+theorem root_planD (h : Nat) (hroot : nodeOf 0 h < F) :
+    ∃ init last, planD size bs (nodeOf 0 h) F h 0 = init ++ [last] ∧ rootFlag last = true ∧
+      ∀ c ∈ init, rootFlag c = false := by
+  have hle := g.le; have hge := g.ge
+  cases h with
+  | zero =>
+    rw [nodeOf_zero] at hroot ⊢
+    by_cases hb : 2 * 0 + 1 < Tree.blocks ⟨size, bs⟩
+    · refine ⟨[leafItem size bs (2 * 0) false, leafItem size bs (2 * 0 + 1) false], _,
+        by rw [planD_zero_full g _ hb]; rfl, by simp [rootFlag], ?_⟩
+      intro c hc
+      simp only [List.mem_cons, List.not_mem_nil, or_false] at hc
+      rcases hc with rfl | rfl <;> rfl
+    · exact ⟨[], _, by rw [planD_zero_half g _ hroot (by omega)]; rfl, by simp [rootFlag, leafItem],
+        by simp⟩
+  | succ h =>
+    have hne : ∀ k', ∀ x ∈ postD F h k', x ≠ nodeOf 0 (h + 1) := by
+      intro k' x hx hxe
+      obtain ⟨k'', L', h1, h2, _⟩ := mem_postD' _ _ _ _ hx
+      rw [h1] at hxe
+      have := (C18.nodeOf_inj hxe).2
+      omega
+    refine ⟨_, _, planD_succ_pos g _ hroot, by simp [rootFlag], ?_⟩
+    intro c hc
+    rw [List.mem_append] at hc
+    rcases hc with hc | hc
+    · exact flags_planD g _ h _ (hne _) c hc
+    · exact flags_planD g _ h _ (hne _) c hc
+
+/-- the plan as an explicit recursion: subtree = left plan ++ right plan ++ [parent] -/
+def planRec (size bs root F : Nat) : Nat → Nat → List Chunk
+  | 0, k =>
+    if 2 * k < F then
+      if 2 * k + 1 < Tree.blocks ⟨size, bs⟩ then
+        [leafItem size bs (2 * k) false, leafItem size bs (2 * k + 1) false,
+         .parent (nodeOf k bs) (2 * k == root) true true []]
+      else [leafItem size bs (2 * k) (2 * k == root)]
+    else []
+  | L + 1, k =>
+    if nodeOf k (L + 1) < F then
+      planRec size bs root F L (2 * k) ++ planRec size bs root F L (2 * k + 1) ++
+        [.parent (nodeOf k (L + 1 + bs)) (nodeOf k (L + 1) == root) true true []]
+    else planRec size bs root F L (2 * k)
+
+theorem planD_eq_planRec (L k : Nat) :
+    planD size bs root F L k = planRec size bs root F L k := by
+  have hle := g.le; have hge := g.ge
+  induction L generalizing k with
+  | zero =>
+    have e : up bs (2 * k) = nodeOf k bs := by
+      have := up_nodeOf bs k 0
+      rwa [nodeOf_zero, Nat.zero_add] at this
+    by_cases hsh : 2 * k < F
+    · by_cases h : 2 * k + 1 < Tree.blocks ⟨size, bs⟩
+      · rw [planD_zero_full g root h, e]; simp only [planRec, if_pos hsh, if_pos h]
+      · rw [planD_zero_half g root hsh (by omega)]; simp only [planRec, if_pos hsh, if_neg h]
+    · rw [planD_zero_out root hsh]; simp only [planRec, if_neg hsh]
+  | succ L ih =>
+    by_cases h : nodeOf k (L + 1) < F
+    · rw [planD_succ_pos g root h, ih, ih, up_nodeOf]; simp only [planRec, if_pos h]
+    · rw [planD_succ_neg root h, ih]; simp only [planRec, if_neg h]
+
+end plan
+
 end Bao.NodeIterL
